@@ -57,6 +57,22 @@ impl Case {
             out.push(self.table.line(&values, &mut t));
         }
         out.extend(self.lines.iter().cloned());
+        // rows never seen before that are permutations of each other (the values of two columns of one type exchanged)
+        for ty in [Ty::Int, Ty::Text] {
+            let same: Vec<usize> = self.table.cols.iter().enumerate().filter(|(_, c)| c.1 == ty).map(|(i, _)| i).collect();
+            if same.len() >= 2 {
+                for k in 0..4i64 {
+                    for swapped in [false, true] {
+                        let (x, y) = if swapped { (1, 0) } else { (0, 1) };
+                        let mut values: Vec<V> = vec![V::Null; self.table.cols.len()];
+                        let pair = if ty == Ty::Int { [V::Int(-10 - k), V::Int(-20 - k)] } else { [V::Text(format!("pa{}", k)), V::Text(format!("pb{}", k))] };
+                        values[same[0]] = pair[x].clone();
+                        values[same[1]] = pair[y].clone();
+                        out.push(self.table.line(&values, &mut t));
+                    }
+                }
+            }
+        }
         out
     }
 }
@@ -242,6 +258,33 @@ impl Property for C08 {
     }
 
     fn generate(&self, t: &mut Tape, ctx: &Ctx) -> Case {
+        if t.chance(1, 40) {
+            // a tuple wider than a machine word has bits (66-72 columns): rows that agree on the first 64 columns and differ only in
+            // which of the later columns is NULL
+            let ncols = 66 + t.draw(7);
+            let table = DataTable { name: "t".into(), json: true, cols: (0..ncols).map(|i| (format!("c{}", i), Ty::Int)).collect(), not_null: None, default_col: None };
+            let base: Vec<V> = (0..ncols).map(|i| if i < 64 && t.chance(3, 4) { V::Int(t.range(0, 3)) } else { V::Null }).collect();
+            let n = 3 + t.draw(8);
+            let mut lines = Vec::new();
+            for _ in 0..n {
+                let mut row = base.clone();
+                match t.draw(4) {
+                    0 => {}
+                    1 => {
+                        let c = t.draw(64);
+                        row[c] = V::Int(t.range(0, 3));
+                    }
+                    _ => {
+                        let c = 64 + t.draw(ncols - 64);
+                        row[c] = V::Int(1);
+                    }
+                }
+                lines.push(table.line(&row, t));
+            }
+            let mut query = Select::simple(vec![(crate::sql::E::Star, None)], "t");
+            query.distinct = true;
+            return Case { table, query, lines, filler: 0, joined: None, joined_lines: Vec::new() };
+        }
         let mut opts = QOpts::all();
         opts.limit = false;
         opts.order_sensitive = false;
@@ -315,7 +358,8 @@ impl Property for C08 {
         let mut query = g.query;
         if query.group_by.is_empty() && query.having.is_none() && !query.items.iter().any(|(e, _)| matches!(e, crate::sql::E::Agg(_, _, _))) && t.chance(1, 60) {
             filler = match ctx.tier {
-                crate::run::Tier::Quick => *t.pick(&[300, 1100, 2500, 5000]),
+                // (one long gap in twenty-five exceeds 65 536 rows also in the quick tier)
+                crate::run::Tier::Quick => if t.chance(1, 25) { 70_000 } else { *t.pick(&[300, 1100, 2500, 5000]) },
                 crate::run::Tier::Thorough => *t.pick(&[300, 1100, 2500, 5000, 20_000, 70_000]),
             };
             query.items = vec![(crate::sql::E::Star, None)];
